@@ -513,7 +513,71 @@ func c04floatValues(c *core.Ctx) bool {
 			return false
 		}
 	}
+	// NaN keys: like in a map[float64]V every Store(NaN) makes a new entry that no Load
+	// finds and that Range visits
+	var mk sync2.Map[float64, int]
+	mk.Store(math.NaN(), 1)
+	mk.Store(1.5, 2)
+	mk.Range(func(float64, int) bool { return true })
+	mk.Store(math.NaN(), 3)
+	nans, others := 0, 0
+	mk.Range(func(k float64, v int) bool {
+		if k != k {
+			nans++
+		} else {
+			others++
+		}
+		return true
+	})
+	if _, ok := mk.Load(math.NaN()); ok || nans != 2 || others != 1 {
+		c.Violate("seq:NaN-keys", fmt.Sprintf("a Map[float64,int] after Store(NaN), Store(1.5), Range, Store(NaN): Load(NaN) found=%v, Range visits %d NaN entries and %d others; a map[float64]int has 2 NaN entries, finds none of them, and ranges over all 3", ok, nans, others), nil)
+		return false
+	}
 	c.Count("seq_float_value_checks", 1)
+	return true
+}
+
+// c04counted: every reader (Load, Range), then exactly 256 / 65536 writes with no read in
+// between (stores to a read-map key, or store+delete pairs of a dirty-only key), one more
+// write, and every reader again.
+func c04counted(c *core.Ctx) bool {
+	for _, m := range []int{256, 65536} {
+		for variant := 0; variant < 2; variant++ {
+			var im sync2.Map[int, int64]
+			model := map[int]int64{}
+			step := func(o rec) bool {
+				if sig, msg := seqStep(&im, model, &o); sig != "" {
+					c.Violate("seq:counted:"+sig, fmt.Sprintf("%s [after exactly %d writes without a read; variant %d]", msg, m, variant), nil)
+					return false
+				}
+				return true
+			}
+			if !step(rec{Op: opStore, Key: 0, Arg: 1}) || !step(rec{Op: opStore, Key: 1, Arg: 2}) || !step(rec{Op: opRange}) || !step(rec{Op: opLoad, Key: 0}) {
+				return false
+			}
+			if variant == 1 && !step(rec{Op: opStore, Key: 2, Arg: 3}) { // key 2 is dirty-only, the map amended
+				return false
+			}
+			for i := 0; i < m; i++ {
+				var o rec
+				switch {
+				case variant == 0:
+					o = rec{Op: opStore, Key: 0, Arg: int64(100 + i)}
+				case i%2 == 0:
+					o = rec{Op: opDelete, Key: 2}
+				default:
+					o = rec{Op: opStore, Key: 2, Arg: int64(100 + i)}
+				}
+				im2 := o
+				doMapOp(&im, &im2)
+				applyModel(model, o)
+			}
+			if !step(rec{Op: opStore, Key: 1, Arg: 77}) || !step(rec{Op: opRange}) || !step(rec{Op: opLoad, Key: 0}) || !step(rec{Op: opLoad, Key: 1}) || !step(rec{Op: opLoad, Key: 2}) || !step(rec{Op: opRange}) {
+				return false
+			}
+		}
+	}
+	c.Count("seq_counted_write_storms", 1)
 	return true
 }
 
@@ -521,6 +585,9 @@ func c04seq(c *core.Ctx) {
 	r := c.R
 	hooksOff()
 	if c.Index == 8 && !c04floatValues(c) {
+		return
+	}
+	if c.Index == 9 && !c04counted(c) {
 		return
 	}
 	if c.Index < 8 {
